@@ -2,7 +2,8 @@
 """Regenerates MANIFEST.json from checks.json (claimed checks) and na.json (reasons for unclaimed)."""
 import json, os
 R = os.path.dirname(os.path.dirname(os.path.abspath(__file__)))
-checks = json.load(open(os.path.join(R, "checks.json")))
+import glob
+checks = {os.path.basename(p)[:-5]: json.load(open(p)) for p in sorted(glob.glob(os.path.join(R, "checks.d", "C*.json")))}
 props = [json.loads(l) for l in open(os.path.join(R, "properties.jsonl")) if l.strip()]
 na = {}
 p = os.path.join(R, "na.json")
